@@ -8,7 +8,10 @@ passwords `1…5`, `0` = empty. Times in hours relative to the virtual clock.
 * `seq <id>`                        fresh state: servers `[up, up]`, bind patterns `[e]`, alice ↦ 1, bob ↦ 2, primary up, stores empty
 * `pats <e|n|m>…`                   configured bind patterns in order: `e` names the user's entry, `n` a well-formed DN without
                                     entry (invalidCredentials), `m` a name the directory answers with invalidDNSyntax
-* `login <u> <pw> <l|u|m>`          name in lower / upper / mixed case (normalised away by the application)
+* `login <u> <pw> <l|u|m|L|U|M|1|2|3>`  name in lower / upper / mixed case (normalised away by the application): form fields
+                                    or (capitals) basic auth at `loginHandler`, or (digits) basic auth without cookie through `checkAuth`
+* `ht <u> <pw> <variant>`           the same request with the htpasswd backend configured instead (file entries `alice` ↦ 1,
+                                    legacy mixed-case `Alice` ↦ 2, `bob` ↦ 2); cmd/keymasterd harness only
 * `srv <i> <up|down|hang|err<code>>` · `chpw <u> <pw|->` · `anon <0|1>` · `adv <hours>` · `prim <up|slow|down>` · `sync`
 * `tamper <p|c> <u> del` | `colexp <h>` | `foreign <pw> <h>` | `other <pw> <h>` | `save <slot>` | `restore <slot>`
 
@@ -98,6 +101,38 @@ def applyOps (st : St) (ops : List Op) : St × String :=
   let s' := KM.PwCache.run st.s ops
   ({ st with s := s' }, s!"- - {rowsStr s'}")
 
+/-! ### htpasswd backend behind the application -/
+
+def baseName (u : Nat) : List Char :=
+  if u = 0 then "alice".toList else if u = 1 then "bob".toList else "carol".toList
+
+def capitalise : List Char → List Char
+  | [] => []
+  | c :: rest => c.toUpper :: rest
+
+/-- the name as the client types it -/
+def typedName (u : Nat) (v : String) : Option (List Char) :=
+  if v == "l" || v == "L" || v == "1" then some (baseName u)
+  else if v == "u" || v == "U" || v == "2" then some ((baseName u).map Char.toUpper)
+  else if v == "m" || v == "M" || v == "3" then some (capitalise (baseName u))
+  else none
+
+def asciiLower (l : List Char) : List Char := l.map Char.toLower
+
+/-- the htpasswd file of the harness -/
+def htFile : List Char → Option HtEntry := fun n =>
+  if n = "alice".toList then some { bcrypt2y := true, matchesPw := 1 }
+  else if n = "Alice".toList then some { bcrypt2y := true, matchesPw := 2 }
+  else if n = "bob".toList then some { bcrypt2y := true, matchesPw := 2 }
+  else none
+
+/-- `checkUserPassword` behind `loginHandler` / `checkAuth` with the htpasswd backend -/
+def htModel (name : List Char) (pw : Pw) : Res :=
+  appCheck (reprocess false asciiLower none) (htpasswdAuth (some htFile)) name pw
+
+def resStr : Res → String
+  | .accept => "A" | .reject => "R" | .error => "E"
+
 def modelStep (st : St) : List String → St × String
   | ["seq", _] => ({ s := seqInit }, s!"- - {rowsStr seqInit}")
   | ["login", u, pw, _] =>
@@ -106,6 +141,10 @@ def modelStep (st : St) : List String → St × String
       let r := login st.s u pw
       ({ st with s := r.1 }, s!"{if r.2 then "A" else "R"} {trace st.s u pw} {rowsStr r.1}")
     | _, _ => (st, "bad-op")
+  | ["ht", u, pw, v] =>
+    match u.toNat?, pw.toNat?, (u.toNat?.bind fun u => typedName u v) with
+    | some _, some pw, some name => (st, s!"{resStr (htModel name pw)} - {rowsStr st.s}")
+    | _, _, _ => (st, "bad-op")
   | ["srv", i, t] =>
     match i.toNat?, parseSrv t with
     | some i, some t => applyOps st [.setServer i t]
@@ -255,7 +294,8 @@ def judgeLogin (j : JSt) (u pw : Nat) (res tr : String) (after : Rows) : String 
   let consulted := before.get (j.prim == .up) u
   let accepted := res == "A"
   let dirOK := j.dirOK u pw
-  if res != "A" && res != "R" then s!"viol login-error result {res}"
+  if res == "W" then "viol granted-other-identity the login was granted to a name other than the normalised user"
+  else if res != "A" && res != "R" then s!"viol login-error result {res}"
   else if pw == 0 && accepted then "viol empty-password-accepted the empty password was accepted"
   else if (traceVerdict tr).isSome && traceVerdict tr != some dirOK then
     s!"viol harness-directory-inconsistent bind trace {tr} but the directory holds {repr (j.dir u)}"
@@ -321,6 +361,16 @@ def judgeStep (j : JSt) (fs : List String) : JSt × String :=
                     else j'
           (j2, verdict)
         | _, _ => (j, "bad-op")
+      | ["ht", u, pw, v] =>
+        -- the property's own predicate: accepted only if the backend accepts this password for the
+        -- NORMALISED user (the file entry under the lower-cased name)
+        match u.toNat?, pw.toNat?, (u.toNat?.bind fun u => typedName u v) with
+        | some _, some pw, some name =>
+          if res != "A" && res != "R" then (j', s!"viol login-error result {res}")
+          else if res == "A" && !((htFile (asciiLower name)).map (fun e => e.bcrypt2y && e.matchesPw == pw) == some true) then
+            (j', s!"viol backend-rejects-normalised-user accepted although the htpasswd file has no matching entry for the normalised name (typed {String.ofList name})")
+          else (j', "ok")
+        | _, _, _ => (j, "bad-op")
       | ["chpw", u, pw] =>
         match u.toNat?, (if pw == "-" then some none else pw.toNat?.map some) with
         | some u, some pw => ({ j' with dir := fun x => if x = u then pw else j.dir x }, "ok")
